@@ -392,7 +392,10 @@ func c11Pre(c *Ctx) {
 	}
 	fn := info.Slots["PreExecute"]
 	name, pos := c.fn(fn), c.P.FuncPos(fn)
-	ee := c.NewExecEval(info, EvalConfig{Inline: func(f *ssa.Function, d int) bool { return canonName(f) == "getCacheKey" }})
+	ee := c.NewExecEval(info, EvalConfig{Inline: func(f *ssa.Function, d int) bool {
+		// … and the result constructors of package internal (a hand-built hit result and a helper that builds it are one value)
+		return canonName(f) == "getCacheKey" || (c.P.InScope[f] && f.Pkg != nil && f.Pkg.Pkg.Name() == "internal")
+	}})
 	ev, ts := ee.Ev, ee.Ev.TS
 	exec := ee.Sym("exec", fn.Params[1].Type())
 	paths := ee.RunSlot("PreExecute", exec)
@@ -497,7 +500,10 @@ func c11Post(c *Ctx) {
 	}
 	fn := info.Slots["PostExecute"]
 	name, pos := c.fn(fn), c.P.FuncPos(fn)
-	ee := c.NewExecEval(info, EvalConfig{Inline: func(f *ssa.Function, d int) bool { return canonName(f) == "getCacheKey" }})
+	ee := c.NewExecEval(info, EvalConfig{Inline: func(f *ssa.Function, d int) bool {
+		// … and the result constructors of package internal (a hand-built hit result and a helper that builds it are one value)
+		return canonName(f) == "getCacheKey" || (c.P.InScope[f] && f.Pkg != nil && f.Pkg.Pkg.Name() == "internal")
+	}})
 	ev, ts := ee.Ev, ee.Ev.TS
 	exec := ee.Sym("exec", fn.Params[1].Type())
 	er := ee.Sym("er", fn.Params[2].Type())
